@@ -302,6 +302,8 @@ class FnTerms:
             r = mk_field(t, e.get("name", e["i"]), e["i"])
             if r[0] == "payload" and r[2][0] == "phi" and r[2][1] == self.path:
                 r = self._payload_of_join(r)
+            elif r[0] == "payload" and r[2][0] == "payload":
+                r = self._payload_chain_of_join(r)
             return r
         if k == "index":
             return ("index", t, self.local_at(e["local"], b, pos))
@@ -337,6 +339,48 @@ class FnTerms:
         if len(cands) == 1 and len(cands[0][3]) == 1 and all(other_variant(l) for l in leaves if l is not cands[0]):
             return cands[0][3][0]
         return r
+
+    def _payload_chain_of_join(self, r):
+        """payload(V2, payload(V1, phi[...])): a helper returning Result<Option<T>, E> spliced in and matched as
+        `Ok(Some(x))`: of the joined values only the V1(V2(x)) constructors can be meant; when there is exactly one, x"""
+        chain = []
+        x = r
+        while x[0] == "payload":
+            chain.append(x[1])
+            x = x[2]
+        if not (x[0] == "phi" and x[1] == self.path):
+            return r
+        chain.reverse()                      # outermost constructor first
+        leaves, seen, st = [], set(), [x]
+        while st:
+            y = st.pop()
+            if y in seen:
+                continue
+            seen.add(y)
+            if y[0] == "phi" and y[1] == self.path:
+                if len(seen) > 64:
+                    return r
+                st.extend(self.phi_operands(y).values())
+            else:
+                leaves.append(y)
+        cur = leaves
+        for var in chain:
+            nxt = []
+            for l in cur:
+                if l[0] == "agg" and l[1] == "adt" and isinstance(l[2], str) and l[2].rsplit("::", 1)[-1] in ("Ok", "Err", "Some", "None"):
+                    if l[2].endswith("::" + var) and len(l[3]) == 1:
+                        inner = l[3][0]
+                        if inner[0] == "phi" and inner[1] == self.path:
+                            nxt.extend(self.phi_operands(inner).values())
+                        else:
+                            nxt.append(inner)
+                elif l[0] == "call" and isinstance(l[1], str) and l[1].endswith("::from_residual"):
+                    continue
+                else:
+                    return r                 # something that is not a literal constructor: cannot tell
+            cur = nxt
+        keys = {strip_site(c) for c in cur}
+        return cur[0] if len(keys) == 1 else r
 
     def operand(self, op, b, pos):
         k = op["k"]
